@@ -74,6 +74,49 @@ def norm_dump(lines, tag, skeleton=False):
     return out
 
 
+def sdump(lines, tag):
+    """S lines of one topology: {(depth, idx): (name, lmem, [(info name, value)...])} in dump order"""
+    res, order = {}, []
+    for l in lines:
+        f = l.split(" ")
+        if f[0] == "S" and f[1] == tag:
+            ninf = int(f[7])
+            res[(f[2], f[3])] = (f[4], f[5], [(f[8 + 2 * k], f[9 + 2 * k]) for k in range(ninf)])
+            order.append((f[2], f[3]))
+    return res, order
+
+
+def entries_match_dumps(clines, L):
+    """every entry of a built list against the two dumps, without the model: it addresses (by depth and LOGICAL index)
+    an object whose attribute is the entry's old value in A and its new value in B; and every object whose name, local
+    memory or info value differs between the dumps has its entry.  Only when B has the objects of A (a dup with edits)."""
+    sa, oa_ = sdump(clines, "A")
+    sb, ob = sdump(clines, "B")
+    if oa_ != ob:
+        return None
+    want = set()
+    for k in oa_:
+        a, b = sa[k], sb[k]
+        if a[0] != b[0]:
+            want.add((k, "name", "-", a[0], b[0]))
+        if a[1] != b[1]:
+            want.add((k, "size", "0", a[1], b[1]))
+        if len(a[2]) == len(b[2]):
+            for (n1, v1), (n2, v2) in zip(a[2], b[2]):
+                if n1 == n2 and v1 != v2:
+                    want.add((k, "info", n1, v1, v2))
+    nbl = next((l.split()[2] for l in clines if l.startswith("T A ")), None)
+    got = set()
+    for l in L:
+        f = l.split()
+        if len(f) == 8 and f[0] == "D" and f[1] == "a" and f[2] != nbl:
+            got.add(((f[2], f[3]), f[4], f[5], f[6], f[7]))
+    if got != want:
+        extra, missing = sorted(got - want), sorted(want - got)
+        return "entries not matching the dumps: %s; differences of the dumps without entry: %s" % (extra[:2], missing[:2])
+    return None
+
+
 def kv(line):
     return dict(p.split("=", 1) for p in line.split()[1:] if "=" in p)
 
@@ -279,6 +322,10 @@ def evaluate(case, clines, mlines):
                     else:
                         viol.append(("build-toocomplex:" + case, "rc=%d but expressible=%s" % (rc, express)))
             if rc == 0:
+                bad = entries_match_dumps(clines, L)
+                if bad:
+                    viol.append(("build-entries:" + case, "diff_build returns 0 but " + bad))
+
                 def classify(what, generic):
                     if hd.get("nonnull") == "0":
                         viol.append(("name-unset", "name set on one side only: diff_build returns 0 with a NULL old/new value; " + what))
@@ -387,7 +434,7 @@ def check(run, replay=None):
         for l in outp.split("\n"):
             if l.startswith("xml export=0"):
                 base = int(kv(l)["len"]) - 100
-        for xc in G.xml_cases(rng, base, run.tier) + G.xmlload_cases() + G.bytes_cases() + G.refname_cases(base):
+        for xc in G.xml_cases(rng, base, run.tier) + G.xmlload_cases() + G.bytes_cases() + G.refname_cases(base) + G.index_cases(rng):
             cases.append((xc[0][5:], xc))
         # child lists of different length / content at one place, all four kinds, both directions
         stopos = G.shape_topos(C.REPO)
@@ -431,7 +478,7 @@ def check(run, replay=None):
         viol, diff = evaluate(name, cl, ml)
         res = [l for l in cl if KEEP.match(l)]
         nontriv = any(l.startswith("D ") for l in res)
-        kind = "refname" if name.startswith("ref-") else "bytes" if name.startswith("bytes-") else "shape" if name.startswith(("shape-", "filt-")) else "xmlload" if any(l.startswith("xmlload") for l in cl) else "misuse" if any(l.startswith("misuse") for l in cl) else "xml" if any(l.startswith("xmlhand") for l in cl) else ("hand" if any(l.startswith("hand") for l in res) else "pair")
+        kind = "index" if name.startswith("index-") else "refname" if name.startswith("ref-") else "bytes" if name.startswith("bytes-") else "shape" if name.startswith(("shape-", "filt-")) else "xmlload" if any(l.startswith("xmlload") for l in cl) else "misuse" if any(l.startswith("misuse") for l in cl) else "xml" if any(l.startswith("xmlhand") for l in cl) else ("hand" if any(l.startswith("hand") for l in res) else "pair")
         run.count("\n".join(res), nontrivial=nontriv, sample={"case": by_name.get(name, [])[:12], "impl": res[:6]}, kind=kind)
         for l in ml:
             if l.startswith("hyp A") or l.startswith("hypd") or l.startswith("hyph"):
